@@ -262,6 +262,22 @@ def check(prog, rep, tier):
             seen.add("odd")
         else:
             wantr = None
+        if wantr is None:
+            # no parity branch on the path: the positions may come from a remembered pair that every writer of depth refreshes
+            # (low, high = the two median positions, equal for an odd depth).  Decide both parities on the expanded value
+            from ..common import expand_derived
+            par = ("cmp", "==", ("bin", "%", d, C(2)), C(0))
+            ok_par = {}
+            for truth in (True, False):
+                r_ = expand_derived(prog, ctx, rvv)
+                r_ = mapx(r_, lambda n: (n[2] if truth else n[3]) if (n[0] == "phi" and strip_epochs(n[1]) == par) else None)
+                r_ = norm(mapx(norm(r_), lambda n: M if n == lst else None))
+                w_ = norm(("bin", "//", ("bin", "+", m(half), m(("bin", "-", half, C(1)))), C(2))) if truth else m(half)
+                twice = norm(("bin", "//", ("bin", "+", m(half), m(half)), C(2)))  # (x + x) // 2 is x for the integer estimates
+                ok_par[truth] = canon(r_) == canon(w_) or (not truth and canon(r_) == canon(twice))
+            if all(ok_par.values()):
+                seen |= {"even", "odd"}
+                continue
         if wantr is None or canon(rvm) != canon(wantr):
             okm = False
             rep.bad("C06.mean-queries", f"{ctx}.__mean_min_query", f"median {nshow(rvv)}", f"the result {nshow(rvv)} is not the median of the sorted per-row estimates", f.where(p.exit[2]))
